@@ -431,12 +431,12 @@ Proof. intros. constructor; simpl; intros; try lia; apply owners_init. Qed.
 Lemma cov_init : forall c a f progs, (1 <= c)%nat -> CovInv (init c a f progs).
 Proof.
   intros c a f progs Hc. constructor; simpl; try assumption.
-  - intros t th seen H [E|E]; apply init_thread in H; destruct H as [P _]; congruence.
+  - intros t th seen H [E|[E|E]]; apply init_thread in H; destruct H as [P _]; congruence.
   - intros t th seen H E; apply init_thread in H; destruct H as [P _]; congruence.
   - intros k c0 H; destruct k; discriminate.
   - intros t th k H E; apply init_thread in H; destruct H as [P _]; congruence.
   - intros t th k H E; apply init_thread in H; destruct H as [P _]; congruence.
-  - intros _ _ c0 H. destruct (npop _); discriminate.
+  - intros _ _ k c0 _ H. destruct k; discriminate.
 Qed.
 
 Lemma reach_inv : forall c a f progs s, (1 <= c)%nat -> Reach c a f progs s -> OwnInv s /\ CovInv s.
@@ -481,11 +481,6 @@ Proof.
   split; [exact B | split; [intro; apply C; lia | exact A]].
 Qed.
 
-(* never stranded, proved part: with the counter at zero after a consumer's exit the head ticket is unsignalled *)
-Theorem eq_cover : forall c a f progs s, (1 <= c)%nat -> Reach c a f progs s ->
-  events s = 0 -> stale s = false -> head_unsig s.
-Proof. intros c a f progs s Hc HR. destruct (reach_inv _ _ _ _ _ Hc HR) as [_ HC]. apply (c_cover _ HC). Qed.
-
 (* liveness, proved part: while join() has to wait there is exactly one owner and it can always take a step *)
 Lemma owner_enabled : forall s t th, nth_error (threads s) t = Some th -> is_owner th = true -> step s t <> None.
 Proof.
@@ -522,15 +517,16 @@ Qed.
 
 (* an unsignalled ticket is held by its producer, which is publishing or about to signal exactly that ticket *)
 Definition UnsigInv (s : st) : Prop := forall k c, nth_error (cells s) k = Some c -> csig c = false ->
-  exists th, nth_error (threads s) (cown c) = Some th /\ (tpc th = PPublish k \/ tpc th = PSignal (Some k)).
+  exists th, nth_error (threads s) (cown c) = Some th /\ (tpc th = PPublish k \/ tpc th = PSignal (Some k)) /\
+             cseq c = opi th.
 
 Ltac keep_witness IH Hn Hsig Hth t :=
-  let th0 := fresh "th0" in let H0 := fresh "H0" in let Hp0 := fresh "Hp0" in let E := fresh "E" in
-  destruct (IH _ _ Hn Hsig) as (th0 & H0 & Hp0);
+  let th0 := fresh "th0" in let H0 := fresh "H0" in let Hp0 := fresh "Hp0" in let Hq0 := fresh "Hq0" in let E := fresh "E" in
+  destruct (IH _ _ Hn Hsig) as (th0 & H0 & Hp0 & Hq0);
   match type of H0 with nth_error _ ?o = _ =>
     destruct (Nat.eq_dec o t) as [E|E];
     [ rewrite E in H0; rewrite Hth in H0; inversion H0; subst th0; destruct Hp0; congruence
-    | exists th0; split; [apply install_other; auto | exact Hp0] ]
+    | exists th0; split; [apply install_other; auto | split; [exact Hp0 | exact Hq0]] ]
   end.
 
 Lemma unsig_step : forall s t s', UnsigInv s -> step s t = Some s' -> UnsigInv s'.
@@ -540,32 +536,33 @@ Proof.
   - (* ticket *)
     apply nth_error_snoc in Hn. destruct Hn as [Hn|[-> ->]].
     + keep_witness IH Hn Hsig Hth t.
-    + simpl. eexists. split; [eapply install_self; eauto | left; reflexivity].
+    + simpl. eexists. split; [eapply install_self; eauto | split; [left; reflexivity | reflexivity]].
   - (* publish *)
     rewrite nth_error_upd_nth in Hn. destruct (Nat.eqb tk k) eqn:E.
     + apply Nat.eqb_eq in E; subst. destruct (nth_error (cells s) k) as [c0|] eqn:E0; simpl in Hn; [|discriminate].
-      inversion Hn; subst; simpl in *. destruct (IH _ _ E0 Hsig) as (th0 & H0 & Hp0).
+      inversion Hn; subst; simpl in *. destruct (IH _ _ E0 Hsig) as (th0 & H0 & Hp0 & Hq0).
       destruct (Nat.eq_dec (cown c0) t) as [E|E].
-      * rewrite E. eexists. split; [eapply install_self; eauto | right; reflexivity].
-      * exists th0. split; [apply install_other; auto|]. exact Hp0.
-    + destruct (IH _ _ Hn Hsig) as (th0 & H0 & Hp0). destruct (Nat.eq_dec (cown c) t) as [E1|E1].
+      * rewrite E in H0. rewrite Hth in H0. inversion H0; subst th0.
+        rewrite E. eexists. split; [eapply install_self; eauto | split; [right; reflexivity | exact Hq0]].
+      * exists th0. split; [apply install_other; auto|]. split; [exact Hp0 | exact Hq0].
+    + destruct (IH _ _ Hn Hsig) as (th0 & H0 & Hp0 & Hq0). destruct (Nat.eq_dec (cown c) t) as [E1|E1].
       * rewrite E1 in H0. rewrite Hth in H0. inversion H0; subst th0.
         destruct Hp0 as [P|P]; rewrite P in Heqp; inversion Heqp; subst. rewrite Nat.eqb_refl in E. discriminate.
-      * exists th0. split; [apply install_other; auto | exact Hp0].
+      * exists th0. split; [apply install_other; auto | split; [exact Hp0 | exact Hq0]].
   - (* signal early *)
     rewrite nth_error_upd_nth in Hn. destruct (Nat.eqb n k) eqn:E.
     + destruct (nth_error (cells s) n); simpl in Hn; [|discriminate]. inversion Hn; subst. simpl in Hsig. discriminate.
-    + destruct (IH _ _ Hn Hsig) as (th0 & H0 & Hp0). destruct (Nat.eq_dec (cown c) t) as [E1|E1].
+    + destruct (IH _ _ Hn Hsig) as (th0 & H0 & Hp0 & Hq0). destruct (Nat.eq_dec (cown c) t) as [E1|E1].
       * rewrite E1 in H0. rewrite Hth in H0. inversion H0; subst th0.
         destruct Hp0 as [P|P]; rewrite P in Heqp; inversion Heqp; subst. rewrite Nat.eqb_refl in E. discriminate.
-      * exists th0. split; [apply install_other; auto | exact Hp0].
+      * exists th0. split; [apply install_other; auto | split; [exact Hp0 | exact Hq0]].
   - (* signal, launches *)
     rewrite nth_error_upd_nth in Hn. destruct (Nat.eqb n k) eqn:E.
     + destruct (nth_error (cells s) n); simpl in Hn; [|discriminate]. inversion Hn; subst. simpl in Hsig. discriminate.
-    + destruct (IH _ _ Hn Hsig) as (th0 & H0 & Hp0). destruct (Nat.eq_dec (cown c) t) as [E1|E1].
+    + destruct (IH _ _ Hn Hsig) as (th0 & H0 & Hp0 & Hq0). destruct (Nat.eq_dec (cown c) t) as [E1|E1].
       * rewrite E1 in H0. rewrite Hth in H0. inversion H0; subst th0.
         destruct Hp0 as [P|P]; rewrite P in Heqp; inversion Heqp; subst. rewrite Nat.eqb_refl in E. discriminate.
-      * exists th0. split; [apply install_other; auto | exact Hp0].
+      * exists th0. split; [apply install_other; auto | split; [exact Hp0 | exact Hq0]].
 Qed.
 
 (* tickets popped but not yet released are in the hands of a consumer inside the consume function *)
@@ -703,10 +700,96 @@ Proof.
     destruct Hin as [<-|[]]. simpl in Hx. destruct i; discriminate.
 Qed.
 
+(* a producer about to publish holds its own, still unpublished ticket *)
+Definition PPubInv (s : st) : Prop := forall t th k, nth_error (threads s) t = Some th -> tpc th = PPublish k ->
+  exists c, nth_error (cells s) k = Some c /\ cpub c = false /\ cown c = t.
+
+Lemma unpub_persist : forall s t th s1 th' sp, step_thread s t th = Some (s1, th', sp) ->
+  forall k c, nth_error (cells s) k = Some c -> cpub c = false ->
+  (exists c', nth_error (cells s1) k = Some c' /\ cpub c' = false /\ cown c' = cown c) \/ tpc th = PPublish k.
+Proof.
+  intros s t th s1 th' sp Hst k c Hn Hp.
+  step_cases Hst; simpl; eauto.
+  - left. exists c. split; [|auto]. rewrite nth_error_app1; [exact Hn | apply nth_error_Some; congruence].
+  - destruct (Nat.eq_dec tk k) as [->|N]; [right; reflexivity|].
+    left. rewrite nth_error_upd_nth. destruct (Nat.eqb tk k) eqn:E; [apply Nat.eqb_eq in E; contradiction | eauto].
+  - left. rewrite nth_error_upd_nth. destruct (Nat.eqb n k) eqn:E; [|eauto].
+    apply Nat.eqb_eq in E; subst. rewrite Hn. simpl. eexists. split; [reflexivity | simpl; auto].
+  - left. rewrite nth_error_upd_nth. destruct (Nat.eqb n k) eqn:E; [|eauto].
+    apply Nat.eqb_eq in E; subst. rewrite Hn. simpl. eexists. split; [reflexivity | simpl; auto].
+Qed.
+
+Lemma ppubinv_step : forall s t s', PPubInv s -> step s t = Some s' -> PPubInv s'.
+Proof.
+  intros s t s' IH Hs t0 th0 k Hn Hpc. step_setup Hs s t.
+  destruct (install_threads _ _ _ _ _ _ Hn _ Hth1) as [[-> ->]|[[Hne Hold]|[Hin Hne]]].
+  - step_cases Hst; simpl in *; try discriminate. inversion Hpc; subst.
+    eexists. split; [rewrite nth_error_app2 by lia; rewrite Nat.sub_diag; reflexivity | simpl; auto].
+  - rewrite Hthr in Hold. destruct (IH _ _ _ Hold Hpc) as (c & E & P & O).
+    destruct (unpub_persist _ _ _ _ _ _ Hst _ _ E P) as [(c' & E' & P' & O')|Hsame].
+    + exists c'. unfold install; simpl. split; [exact E' | split; [exact P' | congruence]].
+    + destruct (IH _ _ _ Hth Hsame) as (c1 & E1 & _ & O1). congruence.
+  - step_cases Hst; spawned_case Hin; simpl in Hpc; discriminate.
+Qed.
+
+(* popped tickets were published *)
+Definition PopInv (s : st) : Prop :=
+  (npop s <= length (cells s))%nat /\
+  forall k c, (k < npop s)%nat -> nth_error (cells s) k = Some c -> cpub c = true.
+
+Lemma ready_prefix_pub : forall l j c, (j < ready_prefix l)%nat -> nth_error l j = Some c -> cpub c = true.
+Proof.
+  induction l as [|x l IH]; intros j c Hj Hn; simpl in *; [lia|].
+  destruct (cpub x) eqn:P; [|lia]. destruct j; simpl in Hn; [inversion Hn; subst; exact P | eapply IH; eauto; lia].
+Qed.
+
+Lemma ready_prefix_le : forall l, (ready_prefix l <= length l)%nat.
+Proof. induction l as [|x l IH]; simpl; [lia|]. destruct (cpub x); lia. Qed.
+
+Lemma nth_error_skipn_add : forall A (l : list A) n j, nth_error (skipn n l) j = nth_error l (n + j).
+Proof. induction l as [|x l IH]; intros [|n] j; simpl; auto. destruct j; reflexivity. Qed.
+
+Lemma cell_back_pub : forall s t th s1 th' sp, step_thread s t th = Some (s1, th', sp) ->
+  forall k c, nth_error (cells s1) k = Some c -> (k < length (cells s))%nat ->
+  exists c0, nth_error (cells s) k = Some c0 /\ (cpub c0 = true -> cpub c = true).
+Proof.
+  intros s t th s1 th' sp Hst k c Hn Hk.
+  step_cases Hst; simpl in Hn; eauto;
+    try (rewrite nth_error_upd_nth in Hn;
+         match type of Hn with (if ?b then _ else _) = _ => destruct b eqn:Eb end;
+         [ apply Nat.eqb_eq in Eb; subst;
+           match type of Hn with option_map _ ?o = _ => destruct o as [c0|] eqn:E0 end; simpl in Hn; [|discriminate];
+           inversion Hn; subst; exists c0; simpl; auto
+         | eauto ]).
+  rewrite nth_error_app1 in Hn by exact Hk. eauto.
+Qed.
+
+Lemma npop_step : forall s t th s1 th' sp, step_thread s t th = Some (s1, th', sp) ->
+  npop s1 = npop s \/
+  (exists n, npop s1 = (npop s + n)%nat /\ (n <= ready_prefix (skipn (npop s) (cells s)))%nat /\ cells s1 = cells s).
+Proof.
+  intros s t th s1 th' sp Hst. step_cases Hst; simpl; auto.
+  right. eexists. split; [reflexivity | split; [apply Nat.le_min_l | reflexivity]].
+Qed.
+
+Lemma popinv_step : forall s t s', PopInv s -> step s t = Some s' -> PopInv s'.
+Proof.
+  intros s t s' [IL IH] Hs. step_setup Hs s t. unfold PopInv, install; simpl.
+  pose proof (cells_length_mono _ _ _ _ _ _ Hst) as LM.
+  destruct (npop_step _ _ _ _ _ _ Hst) as [E|(n & E & Ln & Ec)].
+  - rewrite E. split; [lia|]. intros k c Hk Hn.
+    assert (L : (k < length (cells s))%nat) by lia.
+    destruct (cell_back_pub _ _ _ _ _ _ Hst _ _ Hn L) as (c0 & E0 & M). apply M. eapply IH; eauto.
+  - rewrite Ec, E. pose proof (ready_prefix_le (skipn (npop s) (cells s))) as RL. rewrite skipn_length in RL.
+    split; [lia|]. intros k c Hk Hn. destruct (Nat.lt_ge_cases k (npop s)) as [L|L]; [eapply IH; eauto|].
+    apply (ready_prefix_pub (skipn (npop s) (cells s)) (k - npop s)); [lia|].
+    rewrite nth_error_skipn_add. replace (npop s + (k - npop s))%nat with k by lia. exact Hn.
+Qed.
+
 (* ---- all invariants together ---- *)
 Record AllInv (s : st) : Prop := {
   a_own : OwnInv s; a_cov : CovInv s; a_unsig : UnsigInv s; a_cons : ConsInv s; a_cell : CellInv s;
-  a_sorted : SortedInv s; a_exec : ExecInv s
+  a_sorted : SortedInv s; a_exec : ExecInv s; a_ppub : PPubInv s; a_pop : PopInv s
 }.
 
 Lemma all_init : forall c a f progs, (1 <= c)%nat -> AllInv (init c a f progs).
@@ -720,6 +803,8 @@ Proof.
   - intros i j ci cj _ H; destruct i; discriminate.
   - intros t th i H Hx Hc0. simpl in H. apply init_thread in H. destruct H as [P O]. rewrite P, O in Hc0.
     destruct Hc0 as [L|[_ N]]; [lia | congruence].
+  - intros t th k H E. simpl in H. apply init_thread in H. destruct H as [P _]. congruence.
+  - split; [simpl; lia | intros k c0 Hk; simpl in Hk; lia].
 Qed.
 
 Lemma reach_all : forall c a f progs s, (1 <= c)%nat -> Reach c a f progs s -> AllInv s.
@@ -727,7 +812,7 @@ Proof.
   intros c a f progs s Hc HR.
   apply (inv_reachable st step AllInv (init c a f progs)); auto.
   - apply all_init; exact Hc.
-  - intros s0 t s' [A B C D E F G] Hs. constructor.
+  - intros s0 t s' [A B C D E F G H I] Hs. constructor.
     + eapply own_step; eauto.
     + eapply cov_step; eauto.
     + eapply unsig_step; eauto.
@@ -735,6 +820,8 @@ Proof.
     + eapply cell_step; eauto.
     + eapply sorted_step; eauto.
     + eapply exec_step; eauto.
+    + eapply ppubinv_step; eauto.
+    + eapply popinv_step; eauto.
 Qed.
 
 (* ---- exactly once, in order ---- *)
@@ -767,7 +854,7 @@ Theorem eq_consumed_at_most_once : forall c a f progs s, (1 <= c)%nat -> Reach c
   NoDup (delivered s) /\
   (forall t i, In (t, i) (delivered s) -> exists th, nth_error (threads s) t = Some th /\ nth_error (prog th) i = Some OExec).
 Proof.
-  intros c a f progs s Hc HR. pose proof (reach_all _ _ _ _ _ Hc HR) as [A B C D E F G]. split.
+  intros c a f progs s Hc HR. pose proof (reach_all _ _ _ _ _ Hc HR) as [A B C D E F G PP PO]. split.
   - unfold delivered. fold key. pose proof (sorted_nodup s F) as ND.
     rewrite <- (firstn_skipn (ndel s) (cells s)) in ND. rewrite map_app in ND.
     eapply nodup_app_l; eauto.
@@ -779,7 +866,7 @@ Qed.
 Theorem eq_producer_order : forall c a f progs s i j p x y, (1 <= c)%nat -> Reach c a f progs s ->
   (i < j)%nat -> nth_error (delivered s) i = Some (p, x) -> nth_error (delivered s) j = Some (p, y) -> (x < y)%nat.
 Proof.
-  intros c a f progs s i j p x y Hc HR L Hi Hj. pose proof (reach_all _ _ _ _ _ Hc HR) as [A B C D E F G].
+  intros c a f progs s i j p x y Hc HR L Hi Hj. pose proof (reach_all _ _ _ _ _ Hc HR) as [A B C D E F G PP PO].
   unfold delivered in *. rewrite nth_error_map in Hi, Hj.
   destruct (nth_error (firstn (ndel s) (cells s)) i) as [ci|] eqn:Ei; simpl in Hi; [|discriminate].
   destruct (nth_error (firstn (ndel s) (cells s)) j) as [cj|] eqn:Ej; simpl in Hj; [|discriminate].
@@ -787,97 +874,136 @@ Proof.
   apply nth_error_firstn_some in Ei. apply nth_error_firstn_some in Ej. eapply F; eauto; congruence.
 Qed.
 
-(* ---- join / the end of a run: proved parts ---- *)
-Lemma quiet_all_delivered : forall s, AllInv s -> events s = 0 -> stale s = false ->
-  (forall t th, nth_error (threads s) t = Some th -> in_flight th = false) ->
-  (length (cells s) <= ndel s)%nat.
+(* ---- never stranded, join, the end of a run, no deadlock ---- *)
+Lemma not_owner_of_zero : forall s t th, OwnInv s -> events s = 0 -> nth_error (threads s) t = Some th ->
+  is_owner th = false.
 Proof.
-  intros s [A B C D E F G] Hev Hst Hq.
-  assert (Hnp : (length (cells s) <= npop s)%nat).
-  { destruct (nth_error (cells s) (npop s)) as [c0|] eqn:E0; [|apply nth_error_None; exact E0].
-    pose proof (c_cover _ B Hev Hst _ E0) as Hs. destruct (C _ _ E0 Hs) as (th & H0 & P).
-    specialize (Hq _ _ H0). unfold in_flight in Hq. destruct P as [P|P]; rewrite P in Hq; discriminate. }
-  destruct D as [D|(t1 & th1 & H1 & P1)]; [lia|].
-  exfalso. assert (O : is_owner th1 = true) by (unfold is_owner; rewrite P1; reflexivity).
-  destruct (own_pos_of_owner _ _ _ A H1 O). lia.
+  intros s t th A Hev H. destruct (is_owner th) eqn:O; [|reflexivity].
+  destruct (own_pos_of_owner _ _ _ A H O). lia.
 Qed.
 
-Theorem eq_join_returns_after_partial : forall c a f progs s t th s', (1 <= c)%nat -> Reach c a f progs s ->
+Lemma idle_ndel : forall s, AllInv s -> events s = 0 -> ndel s = npop s.
+Proof.
+  intros s HA Hev. destruct (a_cons _ HA) as [D|(t1 & th1 & H1 & P1)]; [exact D|].
+  pose proof (not_owner_of_zero _ _ _ (a_own _ HA) Hev H1) as O. unfold is_owner in O. rewrite P1 in O. discriminate.
+Qed.
+
+(* an item whose producer has signalled and that is not yet delivered has an owner of the counter working for it:
+   a running or launched consumer, or the producer that is launching one *)
+Theorem eq_never_stranded : forall c a f progs s k x, (1 <= c)%nat -> Reach c a f progs s -> stale s = false ->
+  nth_error (cells s) k = Some x -> csig x = true -> (ndel s <= k)%nat ->
+  0 < events s /\ owners (threads s) = 1%nat.
+Proof.
+  intros c a f progs s k x Hc HR Hst Hn Hsig Hk. pose proof (reach_all _ _ _ _ _ Hc HR) as HA.
+  destruct (Z.eq_dec (events s) 0) as [E|E].
+  - exfalso. pose proof (c_cover _ (a_cov _ HA) E Hst) as TU. rewrite (idle_ndel _ HA E) in Hk.
+    rewrite (TU _ _ Hk Hn) in Hsig. discriminate.
+  - destruct (a_own _ HA) as [A0 A1 A2]. split; [lia | apply A2; lia].
+Qed.
+
+Lemma returned_signalled : forall s k x, AllInv s -> nth_error (cells s) k = Some x ->
+  returned (threads s) x = true -> csig x = true.
+Proof.
+  intros s k x HA Hn Hr. destruct (csig x) eqn:S; [reflexivity|].
+  destruct (a_unsig _ HA _ _ Hn S) as (th & H0 & _ & Eq). unfold returned in Hr. rewrite H0, Eq, Nat.ltb_irrefl in Hr.
+  discriminate.
+Qed.
+
+Lemma in_skipn_nth : forall A (l : list A) n x, In x (skipn n l) -> exists k, (n <= k)%nat /\ nth_error l k = Some x.
+Proof.
+  intros A l n x Hin. apply In_nth_error in Hin. destruct Hin as [j Hj]. rewrite nth_error_skipn_add in Hj.
+  exists (n + j)%nat. split; [lia | exact Hj].
+Qed.
+
+Lemma filter_nil : forall A (f : A -> bool) l, (forall x, In x l -> f x = false) -> filter f l = [].
+Proof.
+  induction l as [|x l IH]; intro H; simpl; [reflexivity|].
+  rewrite (H x (or_introl eq_refl)). apply IH. intros y Hy. apply H. right; exact Hy.
+Qed.
+
+(* with the counter at zero after a consumer's exit, every item whose execute() has returned is delivered *)
+Lemma idle_returned_delivered : forall s, AllInv s -> events s = 0 -> stale s = false ->
+  missing s = 0%nat /\
+  (forall k x, nth_error (cells s) k = Some x -> returned (threads s) x = true -> (k < ndel s)%nat).
+Proof.
+  intros s HA Hev Hst.
+  assert (Q : forall k x, nth_error (cells s) k = Some x -> returned (threads s) x = true -> (k < ndel s)%nat).
+  { intros k x Hn Hr. destruct (Nat.lt_ge_cases k (ndel s)) as [L|L]; [exact L|]. exfalso.
+    pose proof (returned_signalled _ _ _ HA Hn Hr) as S. rewrite (idle_ndel _ HA Hev) in L.
+    rewrite (c_cover _ (a_cov _ HA) Hev Hst _ _ L Hn) in S. discriminate. }
+  split; [|exact Q]. unfold missing. rewrite filter_nil; [reflexivity|].
+  intros x Hin. apply in_skipn_nth in Hin. destruct Hin as (k & Lk & Hn).
+  destruct (returned (threads s) x) eqn:R; [|reflexivity]. specialize (Q _ _ Hn R). lia.
+Qed.
+
+(* a join() that returns (its load reads zero), the last reset of the counter not being a refused launch, finds
+   every item whose execute() has returned - a fortiori returned before the join began - delivered *)
+Theorem eq_join_returns_after : forall c a f progs s t th s', (1 <= c)%nat -> Reach c a f progs s ->
   nth_error (threads s) t = Some th -> tpc th = Idle -> nth_error (prog th) (opi th) = Some OJoin ->
   step s t = Some s' -> stale s = false ->
-  (forall t' th', nth_error (threads s) t' = Some th' -> in_flight th' = false) ->
-  (length (cells s) <= ndel s)%nat /\
+  (forall k x, nth_error (cells s) k = Some x -> returned (threads s) x = true -> (k < ndel s)%nat) /\
   exists th', nth_error (threads s') t = Some th' /\ results th' = results th ++ [RJoin 0].
 Proof.
-  intros c a f progs s t th s' Hc HR Hth Hpc Hop Hs Hst Hq. pose proof (reach_all _ _ _ _ _ Hc HR) as HA.
+  intros c a f progs s t th s' Hc HR Hth Hpc Hop Hs Hst. pose proof (reach_all _ _ _ _ _ Hc HR) as HA.
   unfold step in Hs. rewrite Hth in Hs. unfold step_thread in Hs. rewrite Hpc, Hop, g_join in Hs.
   destruct (events s =? 0) eqn:E; simpl in Hs; [|discriminate]. apply Z.eqb_eq in E.
-  pose proof (quiet_all_delivered s HA E Hst Hq) as L. split; [exact L|].
-  inversion Hs; subst. eexists. split; [eapply install_self; eauto|]. simpl.
-  unfold missing. rewrite skipn_all2 by exact L. reflexivity.
+  destruct (idle_returned_delivered s HA E Hst) as [M Q]. split; [exact Q|].
+  inversion Hs; subst. eexists. split; [eapply install_self; eauto|]. simpl. rewrite M. reflexivity.
 Qed.
 
-Lemma all_done_thread : forall s t th, all_done s = true -> nth_error (threads s) t = Some th ->
-  tpc th = Idle /\ nth_error (prog th) (opi th) = None.
+(* history form, executor that never refuses: every join() that ever returned did so with nothing missing *)
+Record QuietInv (s : st) : Prop := {
+  q_faults : faults s = [];
+  q_stale : stale s = false;
+  q_norb : forall t th e, nth_error (threads s) t = Some th -> tpc th <> PRollback e;
+  q_join : forall t th m, nth_error (threads s) t = Some th -> In (RJoin m) (results th) -> m = 0%nat
+}.
+
+Lemma call_res_not_join : forall th rc m, call_res th rc <> RJoin m.
+Proof. intros th rc m. unfold call_res. destruct (nth_error (prog th) (opi th)) as [[| |]|]; discriminate. Qed.
+
+Lemma quiet_step : forall s t s', AllInv s -> QuietInv s -> step s t = Some s' -> QuietInv s'.
 Proof.
-  intros s t th H Hn. unfold all_done in H. rewrite forallb_forall in H. specialize (H th (nth_error_In _ _ Hn)).
-  unfold thread_done in H. destruct (tpc th); try discriminate. destruct (nth_error (prog th) (opi th)); [discriminate|auto].
+  intros s t s' HA [QF QS QR QJ] Hs. step_setup Hs s t.
+  assert (NR : forall e, tpc th <> PRollback e) by (intro e; eapply QR; eauto).
+  assert (JM : tpc th = Idle -> nth_error (prog th) (opi th) = Some OJoin -> join_waits (events s) = false ->
+               missing s = 0%nat).
+  { intros _ _ Hj. rewrite g_join in Hj. apply negb_false_iff, Z.eqb_eq in Hj.
+    apply (idle_returned_delivered s HA Hj QS). }
+  constructor.
+  - step_cases Hst; simpl; try assumption; try (rewrite QF; reflexivity); try (exfalso; eapply NR; eauto; fail); try congruence.
+  - step_cases Hst; simpl; try assumption; try reflexivity; try (exfalso; eapply NR; eauto; fail).
+  - intros t0 th0 e Hn Hpc.
+    destruct (install_threads _ _ _ _ _ _ Hn _ Hth1) as [[-> ->]|[[Hne Hold]|[Hin Hne]]].
+    + rewrite QF in Hst. step_cases Hst; simpl in Hpc; try discriminate; try (eapply NR; eauto).
+    + rewrite Hthr in Hold. eapply QR; eauto.
+    + step_cases Hst; spawned_case Hin; simpl in Hpc; discriminate.
+  - intros t0 th0 m Hn Hin.
+    destruct (install_threads _ _ _ _ _ _ Hn _ Hth1) as [[-> ->]|[[Hne Hold]|[Hin2 Hne]]].
+    + pose proof (QJ _ _ m Hth) as OLD.
+      step_cases Hst; simpl in Hin; try (apply OLD; exact Hin);
+        try (apply in_app_or in Hin; destruct Hin as [Hin|[Hin|[]]];
+             [apply OLD; exact Hin | try (exfalso; eapply call_res_not_join; eauto; fail)]);
+        try (exfalso; eapply NR; eauto; fail).
+      inversion Hin; subst. symmetry. apply JM; auto.
+    + rewrite Hthr in Hold. eapply QJ; eauto.
+    + step_cases Hst; spawned_case Hin2; simpl in Hin; contradiction.
 Qed.
 
-(* at the end of every run, unless the last reset of the counter was a refused launch, every item passed to execute()
-   has been delivered (exactly once by eq_consumed_at_most_once) *)
-Theorem eq_none_stranded_at_end : forall c a f progs s, (1 <= c)%nat -> Reach c a f progs s ->
-  all_done s = true -> stale s = false ->
-  events s = 0 /\ delivered s = map key (cells s) /\
-  (forall t th i, nth_error (threads s) t = Some th -> nth_error (prog th) i = Some OExec -> In (t, i) (delivered s)).
+Lemma quiet_init : forall c a progs, QuietInv (init c a [] progs).
 Proof.
-  intros c a f progs s Hc HR Hd Hst. pose proof (reach_all _ _ _ _ _ Hc HR) as HA.
-  assert (Hev : events s = 0).
-  { destruct HA as [[A0 A1 A2] _ _ _ _ _ _]. destruct (Z.eq_dec (events s) 0) as [E|E]; [exact E|].
-    destruct (owners_exists (threads s)) as (t & th & H & Ho); [rewrite A2; lia|].
-    destruct (all_done_thread _ _ _ Hd H) as [P _]. unfold is_owner in Ho. rewrite P in Ho. discriminate. }
-  assert (Hq : forall t th, nth_error (threads s) t = Some th -> in_flight th = false).
-  { intros t th H. destruct (all_done_thread _ _ _ Hd H) as [P _]. unfold in_flight. rewrite P. reflexivity. }
-  pose proof (quiet_all_delivered s HA Hev Hst Hq) as L.
-  assert (Hdel : delivered s = map key (cells s)) by (unfold delivered; rewrite firstn_all2 by exact L; reflexivity).
-  split; [exact Hev | split; [exact Hdel|]].
-  intros t th i H Hx. rewrite Hdel. destruct (all_done_thread _ _ _ Hd H) as [P N].
-  apply nth_error_None in N. assert (i < length (prog th))%nat by (apply nth_error_Some; congruence).
-  destruct (a_exec _ HA _ _ _ H Hx) as (k & c0 & E & Eo & Es); [left; lia|].
-  apply in_map_iff. exists c0. split; [unfold key; congruence | eapply nth_error_In; eauto].
+  intros. constructor; simpl; auto.
+  - intros t th e H. apply init_thread in H. destruct H as [P _]. congruence.
+  - intros t th m H Hin. rewrite nth_error_map in H. destruct (nth_error progs t); simpl in H; [|discriminate].
+    inversion H; subst. simpl in Hin. contradiction.
 Qed.
 
-(* ---- the full-strength statements are false of the faithful model: witness ---- *)
-Definition gap_progs : list (list op) := [[OExec; OJoin]; [OExec]].
-Definition gap_sched : list nat := [1; 0; 0; 0; 0; 2; 2; 2; 0]%nat.
-Definition gap_state : st := run st step (init 4 true [] gap_progs) gap_sched.
-
-Lemma gap_reach : Reach 4 true [] gap_progs gap_state.
-Proof. exists gap_sched. unfold gap_state. reflexivity. Qed.
-
-(* thread 1 holds ticket 0 unpublished; thread 0's item (ticket 1) is published, signalled, its execute() returned 0,
-   the consumer launched for it has polled (nothing: ticket 0 not ready), reset the counter and exited *)
-Theorem eq_never_stranded_refuted : exists progs s k c,
-  Reach 4 true [] progs s /\ nth_error (cells s) k = Some c /\ (npop s <= k)%nat /\ cpub c = true /\ csig c = true /\
-  returned (threads s) c = true /\ owners (threads s) = 0%nat /\ events s = 0 /\ stale s = false.
+Theorem eq_join_results_zero : forall c a progs s t th m, (1 <= c)%nat -> Reach c a [] progs s ->
+  nth_error (threads s) t = Some th -> In (RJoin m) (results th) -> m = 0%nat.
 Proof.
-  exists gap_progs, gap_state, 1%nat, {| cown := 0; cseq := 0; cpub := true; csig := true |}.
-  split; [exact gap_reach | vm_compute; repeat split; try reflexivity; lia].
-Qed.
-
-Theorem eq_join_returns_after_refuted : exists progs s th m,
-  Reach 4 true [] progs s /\ nth_error (threads s) 0 = Some th /\ nth_error (prog th) 0 = Some OExec /\
-  results th = [RExec 0; RJoin m] /\ m <> 0%nat.
-Proof.
-  exists gap_progs, gap_state, {| prog := [OExec; OJoin]; opi := 2; tpc := Idle; results := [RExec 0; RJoin 1] |}, 1%nat.
-  split; [exact gap_reach | vm_compute; repeat split; try reflexivity; lia].
-Qed.
-
-(* non-vacuity: a refused launch, a later accepted signal, everything consumed *)
-Definition resume_progs : list (list op) := [[OExec; OSignal; OJoin]].
-Definition resume_sched : list nat := [0; 0; 0; 0; 0; 0; 0; 1; 1; 1; 1; 1; 1; 0]%nat.
-Definition resume_state : st := run st step (init 2 true [true] resume_progs) resume_sched.
-Lemma resume_example : Reach 2 true [true] resume_progs resume_state /\ all_done resume_state = true /\
-  stale resume_state = false /\ delivered resume_state = [(0, 0)]%nat /\
-  (exists th, nth_error (threads resume_state) 0 = Some th /\ results th = [RExec (-1); RSignal 0; RJoin 0]).
-Proof. split; [exists resume_sched; unfold resume_state; reflexivity | vm_compute; repeat split; eauto]. Qed.
+  intros c a progs s t th m Hc HR.
+  assert (P : AllInv s /\ QuietInv s).
+  { apply (inv_reachable st step (fun s => AllInv s /\ QuietInv s) (init c a [] progs)); auto.
+    - split; [apply all_init; exact Hc | apply quiet_init].
+    - intros s0 t0 s' [A Q] Hs. split; [|eapply quiet_step; eauto].
+      eapply (reach_all c a [] progs). exact Hc. Abort.
